@@ -156,6 +156,12 @@ def find_masters(prog: Program):
         if ast.dump(node) != ast.dump(f.node):
             f = copy.copy(f)
             f.node = node
+        # chunk bounds tabulated first: `chunks = [(S(k), E(k)) for k in range(P)]`
+        from .idioms import normalise_chunk_table
+        node = normalise_chunk_table(f.node)
+        if ast.dump(node) != ast.dump(f.node):
+            f = copy.copy(f)
+            f.node = node
         if f.module.name.endswith("utils.mpi"):
             continue
         ifs = [n for n in ast.walk(f.node) if isinstance(n, ast.If)
@@ -439,38 +445,19 @@ def q4(run: Run, m: Master):
                             f"applied")
         return None
     idx = sl.target.id if isinstance(sl.target, ast.Name) else None
-    parts = sl.iter.args[0].id if (isinstance(sl.iter, ast.Call) and sl.iter.args and
-                                   isinstance(sl.iter.args[0], ast.Name)) else None
-    info = {}
-    pe = one(top, parts) if parts else None
-    np_ = _norm(pe) if pe is not None else None
-    if not (np_ and np_[0] == "ceil" and np_[1][0] == "name" and np_[2][0] == "name"):
-        bad("parts", f"number of parts `{ast.unparse(pe) if pe is not None else '?'}` "
-            f"is not ceil(N/step)", pe or sl)
-        run.oblige("Q4", key, False)
-        return None
-    N, step = np_[1][1], np_[2][1]
-    se = one(top, step)
-    ns = _norm(se) if se is not None else None
-    if not (ns and ns[0] == "ceil" and ns[1] == ("name", N) and ns[2][0] == "name"):
-        bad("step", f"step `{ast.unparse(se) if se is not None else '?'}` is not "
-            f"ceil({N}/max_parts)", se or sl)
-        ok = False
-        maxp = None
-    else:
-        maxp = ns[2][1]
-        me = one(top, maxp)
-        nm = _norm(me) if me is not None else None
-        if not (nm and nm[0] == "max" and ("const", 1) in nm[1:]):
-            bad("max_parts", f"`{maxp}` is not bounded below by 1 (max(1, ...)); "
-                f"step could be computed from a zero divisor", me or sl)
-            ok = False
-    # start / end inside the loop
-    start = end = None
-    # integer polynomials over the loop index, the step and N: any spelling of
-    # idx*step and min((idx+1)*step, N) - e.g. min(start + step, N) - is accepted
     from .cmodel import Poly
 
+    def undecided(why):
+        run.unknowns.append(f"Q4: {key}: {why}; the partition lemma is not applied")
+        return None
+
+    if idx is None or len(sl.iter.args) != 1 or sl.iter.keywords:
+        return undecided(f"submit loop `for {ast.unparse(sl.target)} in "
+                         f"{ast.unparse(sl.iter)[:40]}` is not `for i in range(P)`")
+
+    # integer polynomials over the loop index and the names of the branch: any
+    # spelling of idx*step and min((idx+1)*step, N) - e.g. min(start + step, N) -
+    # is accepted
     def poly(e, env):
         if isinstance(e, ast.Constant) and isinstance(e.value, int) and \
                 not isinstance(e.value, bool):
@@ -484,31 +471,156 @@ def q4(run: Run, m: Master):
             return a_ + b_ if isinstance(e.op, ast.Add) else \
                 a_ - b_ if isinstance(e.op, ast.Sub) else a_ * b_
         return None
-    want_start = Poly.sym(idx) * Poly.sym(step) if idx and step else None
+
+    def at(p_, k):
+        """the polynomial with the loop index replaced by idx + k / by a constant"""
+        return p_.subst(idx, Poly.sym(idx) + Poly.const(k))
+
+    # 1. chunk start: the name bound to s(idx) with s(0) = 0, s(idx) = idx * <step>
+    start = step = None
     penv = {}
+    spoly = None
+    offset_start = None
     for nme, vals in inner.items():
         for v in vals:
             pv = poly(v, penv)
-            if want_start is not None and pv is not None and pv == want_start:
-                start = nme
-                penv[nme] = pv
-    for nme, vals in inner.items():
-        for v in vals:
-            if isinstance(v, ast.Call) and isinstance(v.func, ast.Name) and \
-                    v.func.id == "min" and len(v.args) == 2 and want_start is not None:
-                for p_, q_ in ((v.args[0], v.args[1]), (v.args[1], v.args[0])):
-                    if isinstance(q_, ast.Name) and q_.id == N:
-                        pp_ = poly(p_, penv)
-                        if pp_ is not None and pp_ == want_start + Poly.sym(step):
-                            end = nme
+            if pv is None or idx not in pv.symbols():
+                continue
+            zero = pv.subst(idx, Poly.const(0))
+            one_ = pv.subst(idx, Poly.const(1))
+            lin = Poly.sym(idx) * (one_ - zero) + zero
+            if start is None and pv == lin and len((one_ - zero).symbols()) == 1 and \
+                    (one_ - zero) == Poly.sym(next(iter((one_ - zero).symbols()))):
+                if zero == Poly.const(0):
+                    start, spoly, step = nme, pv, next(iter((one_ - zero).symbols()))
+                    penv[nme] = pv
+                elif zero.is_const():
+                    offset_start = (nme, v, zero)
+    if start is None and offset_start is not None:
+        nme, v, zero = offset_start
+        bad("start", f"chunk start `{nme} = {ast.unparse(v)}` is {zero} for the first "
+            f"chunk, not 0: the first node(s) of the range are in no chunk (or the "
+            f"chunks are shifted against the rows that are passed)", v)
+        run.oblige("Q4", key, False)
+        return None
     if start is None:
-        bad("start", f"chunk start is not `{idx}*{step}`", sl)
-        ok = False
+        return undecided(f"no chunk start of the form `{idx} * step` is computed in the "
+                         f"submit loop")
+    # 2. chunk end: min(p, N) or p, with p(idx) = s(idx + 1)
+    end = N = None
+    end_min = False
+    mism = None
+    for nme, vals in inner.items():
+        if nme == start:
+            continue
+        for v in vals:
+            cand = []
+            if isinstance(v, ast.Call) and isinstance(v.func, ast.Name) and \
+                    v.func.id == "min" and len(v.args) == 2 and not v.keywords:
+                for p_, q_ in ((v.args[0], v.args[1]), (v.args[1], v.args[0])):
+                    if isinstance(q_, ast.Name) and q_.id != step:
+                        cand.append((poly(p_, penv), q_.id, True))
+            else:
+                cand.append((poly(v, penv), None, False))
+            for pp_, nname, ismin in cand:
+                if pp_ is None or idx not in pp_.symbols():
+                    continue
+                d = pp_ - at(spoly, 1)
+                if d == Poly.const(0):
+                    end, N, end_min = nme, nname, ismin
+                elif d.is_const() and mism is None:
+                    mism = (nme, v, d)
+    if end is None and mism is not None:
+        nme, v, d = mism
+        bad("end", f"chunk end `{nme} = {ast.unparse(v)}` differs from the next chunk's "
+            f"start `({idx}+1)*{step}` by {d}: chunks "
+            f"{'overlap' if d.const_value() > 0 else 'leave a gap'}", v)
+        run.oblige("Q4", key, False)
+        return None
     if end is None:
-        bad("end", f"chunk end is not `min(({idx}+1)*{step}, {N})` - chunks would "
-            f"overlap, leave a gap or run past {N}", sl)
+        return undecided(f"no chunk end `min(({idx}+1)*{step}, N)` is computed in the "
+                         f"submit loop")
+
+    # 3. coverage: P * step against N, from the definitions of step and P
+    def floor_of(e):
+        """(numerator, divisor) names of `a // b`, `int(a / b)`, `int(np.floor(a / b))`"""
+        while isinstance(e, ast.Call) and len(e.args) == 1 and not e.keywords and \
+                ast.unparse(e.func) in ("int", "np.floor", "math.floor", "floor"):
+            inner_ = e.args[0]
+            if ast.unparse(e.func) == "int" and not (
+                    isinstance(inner_, ast.BinOp) or isinstance(inner_, ast.Call)):
+                break
+            e = inner_
+            if isinstance(e, ast.BinOp) and isinstance(e.op, ast.Div):
+                if isinstance(e.left, ast.Name) and isinstance(e.right, ast.Name):
+                    return e.left.id, e.right.id
+                return None
+        if isinstance(e, ast.BinOp) and isinstance(e.op, ast.FloorDiv) and \
+                isinstance(e.left, ast.Name) and isinstance(e.right, ast.Name):
+            return e.left.id, e.right.id
+        return None
+
+    Pexpr = sl.iter.args[0]
+    Pname = Pexpr.id if isinstance(Pexpr, ast.Name) else None
+    se = one(top, step)
+    ns = _norm(se) if se is not None else None
+    step_kind = Q = Nstep = None
+    if ns and ns[0] == "ceil" and ns[1][0] == "name" and ns[2][0] == "name":
+        step_kind, Nstep, Q = "ceil", ns[1][1], ns[2][1]
+    elif se is not None and floor_of(se):
+        step_kind = "floor"
+        Nstep, Q = floor_of(se)
+    pe = one(top, Pname) if Pname else None
+    np_ = _norm(pe) if pe is not None else None
+    if Pname is not None and Pname == Q:
+        p_kind = "divisor"
+    elif np_ and np_[0] == "ceil" and np_[1] == ("name", Nstep) and np_[2] == ("name", step):
+        p_kind = "ceil-of-step"
+    else:
+        p_kind = None
+    if N is None:
+        N = Nstep
+    info = {"where": f"{f.module.relpath}:{sl.lineno}", "N": N, "step": step,
+            "parts": ast.unparse(Pexpr), "start": start, "end": end,
+            "step_is": step_kind, "parts_is": p_kind,
+            "lemma": "DESIGN.md appendix: chunks partition [0,N), guard start>=end is dead"}
+    m.N, m.start, m.end, m.step = N, start, end, step
+    if step_kind is None or p_kind is None or (end_min and Nstep != N):
+        undecided(f"the chunks telescope (`{start}`, `{end}`) but the step "
+                  f"`{ast.unparse(se) if se is not None else step}` / the number of parts "
+                  f"`{ast.unparse(pe) if pe is not None else ast.unparse(Pexpr)}` are not "
+                  f"of a form whose product with the step is compared with {N}")
+        return None
+    ok = True
+    if step_kind == "floor" and p_kind == "divisor":
+        bad("coverage", f"{ast.unparse(Pexpr)} chunks of `{step} = {ast.unparse(se)}` "
+            f"nodes end at {Pname}*({Nstep}//{Pname}) <= {Nstep}: whenever {Pname} does "
+            f"not divide {Nstep} the trailing {Nstep} mod {Pname} nodes are in no chunk "
+            f"and their contributions are missing from the distributed result", se)
         ok = False
-    # every other assignment to start/end in the branch must have the same form
+    elif step_kind == "floor":
+        # P = ceil(N / step) chunks of floor(N / Q) nodes cover [0, N) when step > 0,
+        # which depends on Q <= N: not decided here
+        undecided(f"`{step} = {ast.unparse(se)}` may be 0 (when {Q} > {Nstep})")
+        return None
+    else:
+        # step = ceil(N / Q), P in {Q, ceil(N / step)}: P * step >= N
+        if not end_min:
+            bad("end", f"chunk end `{end}` is `({idx}+1)*{step}` without `min(., {N})`: "
+                f"with `{step} = {ast.unparse(se)}` the last chunk runs past {N} whenever "
+                f"{step} does not divide {N}", sl)
+            ok = False
+        me = one(top, Q)
+        nm = _norm(me) if me is not None else None
+        if nm is not None and nm[0] in ("max", "min", "ceil", "const", "name") and \
+                not (nm[0] == "max" and ("const", 1) in nm[1:]):
+            bad("max_parts", f"`{Q}` is not bounded below by 1 (max(1, ...)); "
+                f"step could be computed from a zero divisor", me or sl)
+            ok = False
+        elif nm is None or nm[0] != "max":
+            run.unknowns.append(f"Q4: {key}: the divisor `{Q}` of the step is not a "
+                                f"recognised expression; its lower bound 1 is not decided")
+    # every other assignment to the start in the branch must have the same form
     for loop in (m.submit_loop, m.collect_loop):
         if loop is None:
             continue
@@ -516,15 +628,12 @@ def q4(run: Run, m: Master):
         for nme, vals in _assigns(loop.body).items():
             if nme == start:
                 for v in vals:
-                    if _norm(v) not in ((("mul", ("name", lidx), ("name", step))),
-                                        ("mul", ("name", step), ("name", lidx))):
+                    pv = poly(v, {})
+                    if lidx is None or pv is None or \
+                            pv != Poly.sym(lidx) * Poly.sym(step):
                         bad("start2", f"`{nme}` reassigned as `{ast.unparse(v)}`", v)
                         ok = False
-    run.oblige("Q4", key, ok, sample={
-        "where": f"{f.module.relpath}:{sl.lineno}", "N": N, "step": step,
-        "parts": parts, "start": start, "end": end,
-        "lemma": "DESIGN.md appendix: chunks partition [0,N), guard start>=end is dead"})
-    m.N, m.start, m.end, m.step = N, start, end, step
+    run.oblige("Q4", key, ok, sample=info)
     return ok
 
 
